@@ -74,6 +74,7 @@ struct oprec {
 	uint64_t val;
 	uint32_t size;
 	uint32_t rep;
+	int nochange; /* the operation was an RMW/store that left the value as it was */
 };
 
 struct rs_thread {
@@ -364,6 +365,10 @@ static void deadlock_report(void)
 		l += snprintf(b + l, sizeof(b) - l, " [%s%s@%s:%d]", t->role ? t->role : "thr",
 		    t->state == T_JOIN ? "(join)" : "", s ? s + 1 : f, t->line);
 	}
+	if(H->describe && l < (int)sizeof(b) - 100) {
+		l += snprintf(b + l, sizeof(b) - l, " | ");
+		H->describe(b + l, sizeof(b) - (size_t)l);
+	}
 	finish(RS_DEADLOCK, b);
 }
 
@@ -409,14 +414,30 @@ static uint64_t engine_digest(void)
 	return h;
 }
 
+static void budget_report(void) __attribute__((noreturn));
+static void budget_report(void)
+{
+	char b[600];
+	const char *f = me && me->file ? me->file : "?";
+	const char *sl = strrchr(f, '/');
+	int l = snprintf(b, sizeof b, "step budget exhausted (livelock?), last in [%s@%s]", me && me->role ? me->role : "thr", sl ? sl + 1 : f);
+	if(H->describe) {
+		l += snprintf(b + l, sizeof(b) - (size_t)l, " | ");
+		H->describe(b + l, sizeof(b) - (size_t)l);
+	}
+	finish(RS_BUDGET, b);
+}
+
 /* consult the choice sequence: n alternatives, default 0 */
 static int next_choice(int n, int kind)
 {
 	if(n < 2)
 		return 0;
 	uint32_t i = R->npoints;
-	if(i >= MAXPTS)
-		rs_engine_error("too many choice points in one execution (%u)", i);
+	if(i >= MAXPTS) {
+		/* as good as an exhausted step budget: the execution does not come to an end */
+		budget_report();
+	}
 	int c = 0;
 	uint64_t dg = opt_stateful ? rs_mix(engine_digest(), (uint64_t)kind * 64 + (uint64_t)sub_choice) : 0;
 	sub_choice++;
@@ -519,14 +540,8 @@ static void yield_blocked(void)
 
 static void sched_point(void)
 {
-	if(++steps > (uint64_t)opt_budget) {
-		char b[256];
-		const char *f = me->file ? me->file : "?";
-		const char *s = strrchr(f, '/');
-		snprintf(b, sizeof b, "step budget %ld exhausted (livelock?) last at [%s@%s:%d]", opt_budget,
-		    me->role ? me->role : "thr", s ? s + 1 : f, me->line);
-		finish(RS_BUDGET, b);
-	}
+	if(++steps > (uint64_t)opt_budget || R->npoints > (uint64_t)opt_budget)
+		budget_report();
 	int en[RS_MAXT];
 	int n = enabled_list(en);
 	if(n < 2)
@@ -576,7 +591,7 @@ static void log_op(const char *file, int line, const volatile void *addr, unsign
 	struct rs_thread *t = me;
 	if(t->no_park)
 		return;
-	struct oprec op = {file, line, addr, val, size, 0};
+	struct oprec op = {file, line, addr, val, size, 0, collapsible};
 	if(collapsible && t->nlog > 0 && op_eq(&t->log[t->nlog - 1], &op)) {
 		if(++t->log[t->nlog - 1].rep > 300)
 			park(1);
@@ -654,8 +669,14 @@ int vy_pre(int kind, const volatile void *addr, unsigned size, const char *file,
 	me->file = file;
 	me->line = line;
 	sub_choice = 0;
-	if(is_fine(file))
-		sched_point();
+	if(is_fine(file)) {
+		/* A run of identical no-effect operations (e.g. the 64 exchanges of an empty inbox per loop iteration) is one
+		 * scheduling point: nobody ran since the previous one, so preempting before the k-th instead of the first
+		 * reaches the same state. */
+		const struct oprec *l = me->nlog ? &me->log[me->nlog - 1] : NULL;
+		if(!(l && l->nochange && l->file == file && l->line == line && l->addr == addr))
+			sched_point();
+	}
 	if(kind == VY_PAUSE)
 		return 0;
 	me->pre_val = peek(addr, size);
